@@ -770,3 +770,21 @@ package zygo
 //@ |  && r0.prevToken.typ == 0 && r0.prevToken.str == ""
 //@ func (*Parser).ResetAddNewInput
 //@ C13 assert lexer-is-reset @before call AddNextStream[0]: arg0.state == LexerNormal && len(arg0.tokens) == 0 && arg0.stream == nil && len(arg0.next) == 0 && arg0.priori == 0
+
+// A complete text handed to LoadStream is followed by a terminator stream, so
+// that its last token is delivered: when parsing starts the text is the current
+// stream and exactly one more stream (the terminator) is queued behind it.
+//@ func (*Lexer).PromoteNextStream
+//@ C13 nopanic
+//@ C13 ensures promoted: old(len(lex.next)) > 0 ==> ok && lex.stream == old(lex.next[0]) && len(lex.next) == old(len(lex.next)) - 1
+//@ C13 ensures nothing-queued: old(len(lex.next)) == 0 ==> !ok && lex.stream == old(lex.stream) && len(lex.next) == 0
+//@ func (*Lexer).AddNextStream
+//@ requires s != nil
+//@ C13 ensures behind-current: old(lex.stream != nil) ==> (len(lex.next) == old(len(lex.next)) + 1 && lex.stream == old(lex.stream)) || (len(lex.next) == old(len(lex.next)) && old(len(lex.next)) == 0 && lex.stream == s) || (len(lex.next) == old(len(lex.next)) && old(len(lex.next)) > 0)
+//@ C13 ensures becomes-current: old(lex.stream == nil && len(lex.next) == 0) ==> lex.stream == s && len(lex.next) == 0
+//@ func (*Parser).ResetAddNewInput
+//@ requires s != nil
+//@ C13 ensures text-is-current: p.lexer.stream == s && len(p.lexer.next) == 0
+//@ func (*Zlisp).LoadStream
+//@ requires stream != nil
+//@ C13 assert text-is-terminated @before call ParseTokens[0]: (len(env.parser.lexer.next) == 1 && env.parser.lexer.stream == stream) || (len(env.parser.lexer.next) == 0 && env.parser.lexer.stream != nil)
